@@ -399,6 +399,8 @@ pub fn run(ctx: &Ctx) {
         s(&["ab", "abb", "a", "AB", "Ab1 #"]),
         s(&["x-y", "a  b", "\\d+", "\u{1f4a9}", "\u{e9}\u{c9}"]),
         s(&["a ", "b "]),
+        s(&["\u{130}x", "i\u{307}x", "IX", "ix"]),
+        s(&["\u{df}", "SS", "ss", "\u{1e9e}"]),
     ];
     let file_only: Vec<Vec<String>> = vec![s(&["-x", "", "b b", "--"]), s(&["", ""]), s(&["a\tb", " ", "#"]), s(&["x\u{a0}", "y\u{a0}"])];
     let dir = tmpdir();
